@@ -81,6 +81,11 @@ CLAIMS = {
    text="Theorem C17_readonly_cmds: every invocation of Protocol.trace is read-only plumbing (rev-parse, config --list/--get, for-each-ref, rev-list, cat-file). Tie: logged invocations (also on error paths) checked against the whitelist; repository directory hashed before/after; repeated runs under GOMAXPROCS 1/2/16 byte-identical; a -race build of git-sizer runs generated repositories with the progress meter on.",
    note="PARTIAL: determinism and race-freedom quantify over goroutine schedules, which are sampled (race detector, GOMAXPROCS), not enumerated; what git processes touch on disk is observed by hashing. Trusted: Coq kernel, harness, Go race detector.",
    technique="Coq proof on invocation-trace model + race detector / repeated runs / directory hashing"),
+
+ "C08": dict(
+   text="Theorems C08_witness_hash (every object cited with hash names is the object of a record* call whose value equals the reported maximum; empty slot => maximum 0), C08_none (--names=none cites nothing), C08_slot_value, on the model of setPath / the twelve path slots / InOrderPathResolver as a fold over the scan's event log. Tie and judge: for generated graphs with roots of every kind, the cited ids must be reachable objects of the right kind attaining the reported value (independent python expansion), the description strings must equal the PathResolver model's strings for the same enumeration order (real git order and random legal orders under fakegit), and every description is passed to `git rev-parse --verify` in the same repository and must print the cited id.",
+   note="PARTIAL in the proof: the witness theorem is proved for hash names; for full names the slot/description correspondence (model = code) and resolvability are decided by the differential run and by git as judge, not by a theorem (a git_resolve model was not built). Repaired: '???' descriptions (8ad2c16). Known finding: tree roots joined with '/'.",
+   technique="Coq proof on event-fold model + git rev-parse as judge + model/implementation string comparison"),
 }
 
 m = {
